@@ -105,3 +105,17 @@ Proof. vm_compute. reflexivity. Qed.
 Example ex_clone :
   schema_obs_eq ex_pv ex_exec ex_sub ((fun d : nat => d) ((fun d => S d) ((fun d => d) 5%nat))) ((fun d : nat => d) 5%nat).
 Proof. repeat split. Qed.
+
+(** the two struct decoders on a non-canonical object: member names in other letter cases, an
+    explicit null, unsorted variables, an extensions member, an unknown member *)
+Definition ex_alias : list (bytes * json) :=
+  [ (b "QUERY", JStr (b "{a}")); (b "operationname", JNull);
+    (b "Variables", JObj [(b "z", JNum 4607182418800017408%N); (b "a", JNull)]);
+    (b "extensions", JObj []); (b "zzz", JArr [JBool true]) ].
+Example ex_alias_hyps : has_range (JObj ex_alias) = false /\ single_string_members ex_alias = true.
+Proof. split; reflexivity. Qed.
+Example ex_alias_agree :
+  option_map body_op (decode_struct StdJson true (JObj ex_alias)) =
+  Some {| o_query := b "{a}"; o_vars := Some [(b "a", JNull); (b "z", JNum 4607182418800017408%N)]; o_opname := [] |}
+  /\ option_map body_op (decode_struct Jsoniter false (JObj ex_alias)) = option_map body_op (decode_struct StdJson true (JObj ex_alias)).
+Proof. split; vm_compute; reflexivity. Qed.
